@@ -8,7 +8,7 @@
  "variants": {"f0": ["-DV_FORM0=0"], "f1": ["-DV_FORM0=1"], "f2": ["-DV_FORM0=2"], "long": ["-DV_FORM0=3"]},
  "unwind": 20,
  "kind": "bounded",
- "bound": "struct S { int a; int b[2]; int c; }; initializer `{ item , item }`: first item any of {none .a .b .b[0] .b[1] .c} x {e, {e}, {e,e}}, second item absent or one of {e, {e}, {e,e}, .b[1] = e, .c = e, .b = {e,e}} (variants f0-f2 by the first item's form); variant long: 9 lists of 3-5 items (full brace elision, excess, braces inside an elided array, designator followed by positional items); symbolic expression ids",
+ "bound": "struct S { int a; int b[2]; int c : 8 (at bit 3 of its unit); }; initializer `{ item , item }`: first item any of {none .a .b .b[0] .b[1] .c} x {e, {e}, {e,e}}, second item absent or one of {e, {e}, {e,e}, .b[1] = e, .c = e, .b = {e,e}} (variants f0-f2 by the first item's form); variant long: 9 lists of 3-5 items (full brace elision, excess, braces inside an elided array, designator followed by positional items); symbolic expression ids",
  "timeout": 400, "replay": false,
  "assumes": ["token script, assignexpr/intconstexpr/exprassign stand-ins and the initadd recorder of parse_common.h; member names are single letters"]
 }
@@ -45,7 +45,7 @@ scenario(unsigned n, const unsigned char *des, const unsigned char *form, bool c
 {
 	static const u64 leafoff[4] = {0, 4, 8, 12};
 	u64 id0 = nondet_u64(), x_off[NREC], x_id[NREC];
-	bool x_head[NREC];
+	bool x_head[NREC], x_bf[NREC];
 	unsigned i, x_n = 0, nxt = 0, k = 0;
 	bool atagg = false, wellformed = true, scalarexcess = false;
 	struct init *ret;
@@ -55,6 +55,7 @@ scenario(unsigned n, const unsigned char *des, const unsigned char *form, bool c
 	exprs_init(&t_char, 4, &t_int);
 	mkarr(&t_b, &t_int, 2, false);
 	mkmem(&m_c, n_c, &t_int, 12, 0);
+	m_c.bits.before = 3; m_c.bits.after = 21;       /* c is a bit-field `int c : 8` 3 bits into its storage unit */
 	mkmem(&m_b, n_b, &t_b, 4, &m_c);
 	mkmem(&m_a, n_a, &t_int, 0, &m_b);
 	mkstruct(&t_S, TYPESTRUCT, &m_a, 16);
@@ -98,12 +99,12 @@ scenario(unsigned n, const unsigned char *des, const unsigned char *form, bool c
 			x_head[x_n] = designated;
 			if (form[i] != FM_E && atagg) {
 				/* p20: the braced list initialises b */
-				x_off[x_n] = 4; x_id[x_n] = id0 + k++; x_n++;
-				if (form[i] == FM_BEE) { x_head[x_n] = false; x_off[x_n] = 8; x_id[x_n] = id0 + k++; x_n++; }
+				x_bf[x_n] = false; x_off[x_n] = 4; x_id[x_n] = id0 + k++; x_n++;
+				if (form[i] == FM_BEE) { x_bf[x_n] = false; x_head[x_n] = false; x_off[x_n] = 8; x_id[x_n] = id0 + k++; x_n++; }
 				nxt = 3; atagg = false;
 			} else {
 				/* p20 brace elision / p11 braced scalar: the next leaf */
-				x_off[x_n] = leafoff[nxt]; x_id[x_n] = id0 + k++; x_n++;
+				x_bf[x_n] = nxt == 3; x_off[x_n] = leafoff[nxt]; x_id[x_n] = id0 + k++; x_n++;
 				nxt++; atagg = nxt == 1;
 			}
 		}
@@ -120,7 +121,8 @@ scenario(unsigned n, const unsigned char *des, const unsigned char *form, bool c
 	__CPROVER_assert(r_n == x_n, "one request per expression of the list");
 	for (i = 0; i < NREC; i++)
 		if (i < x_n) {
-			EXPECT_REC(i, x_off[i], 4, x_id[i], &e_conv, "6.7.9p17/p20: each expression initialises the subobject the designator names or the next one in order (brace elision), in list order");
+			__CPROVER_assert(r_start[i] == x_off[i] && r_end[i] == x_off[i] + 4 && r_eid[i] == x_id[i] && r_expr[i] == &e_conv, "6.7.9p17/p20: each expression initialises the subobject the designator names or the next one in order (brace elision), in list order");
+			__CPROVER_assert(r_before[i] == (x_bf[i] ? 3 : 0) && r_after[i] == (x_bf[i] ? 21 : 0), "a bit-field member is initialised at its bit position inside the storage unit (its neighbours stay untouched); other members whole");
 			__CPROVER_assert(r_conv[i] == &t_int, "6.7.9p11: converted to the member's type");
 			__CPROVER_assert(!x_head[i] || r_head[i], "6.7.9p19: a designated initializer may override any earlier one: scanned from the list head");
 		}
